@@ -1252,3 +1252,40 @@ pub(crate) fn k_frames_reuse_buffer_shape() {
     for ch in buf.channels() { vk_assert!(ch.len() == 4, "channel slices follow the new block size"); n += 1; }
     vk_assert!(n == 1, "exactly one channel");
 }
+
+// ---- read_lpc_subframe: reserved precision code and negative shift are rejected (RFC 9639 9.2.6) ----
+macro_rules! k_lpc_reject {
+    ($name:ident, $order:expr) => {
+        #[kani::proof]
+        #[kani::unwind(6)]
+        pub(crate) fn $name() {
+            let mut tape: Tape<10> = Tape::new();
+            let mut i = 0;
+            while i < $order {
+                let wu: i16 = kani::any();
+                tape.preload(K_S, 16, wu as i64 as u64);
+                i += 1;
+            }
+            let p: u8 = kani::any();
+            kani::assume(p < 16);
+            tape.preload(K_U, 4, p as u64);
+            let shift: i8 = kani::any();
+            kani::assume(shift >= -16 && shift <= 15);
+            tape.preload(K_S, 5, shift as i64 as u64);
+            tape.record = false;
+            tape.failed = true;
+            let mut ch = [0i32; 6];
+            let res = read_lpc_subframe::<32, _, i32>(&mut tape, SignedBitCount::new::<16>(), NonZero::new($order as u8).unwrap(), &mut ch);
+            let badp = matches!(res, Err(Error::InvalidQlpPrecision));
+            let neg = matches!(res, Err(Error::NegativeLpcShift));
+            let io = matches!(res, Err(Error::Io(_)));
+            std::mem::forget(res);
+            vk_undecided!(!tape.shape_mismatch, "read_lpc_subframe read other fields than RFC 9639 9.2.6 lists before the coefficients");
+            vk_assert!(badp == (p == 15), "read_lpc_subframe rejects exactly the reserved QLP precision code 1111");
+            vk_assert!(neg == (p != 15 && shift < 0), "read_lpc_subframe rejects a negative LPC shift (and only that) with NegativeLpcShift");
+            vk_assert!(badp || neg || io, "a legal precision and shift let the decoder go on to the coefficients (missing here): never Ok");
+        }
+    };
+}
+k_lpc_reject!(k_lpc_reject_o1, 1);
+k_lpc_reject!(k_lpc_reject_o3, 3);
